@@ -232,7 +232,17 @@ fn gen_hist(ctx: &mut Ctx, buf: BufKind) -> Hist {
         3 => {
             let mut f = START.to_vec();
             f.extend_from_slice(&rng.biased_in(0, 4, &[0x00, 0x55]));
-            f.extend_from_slice(&[0x1b, 0x1b, 0x1b, 0x1b, 0x02, rng.byte(), rng.byte(), rng.byte()]);
+            f.extend_from_slice(&[0x1b, 0x1b, 0x1b, 0x1b]);
+            match rng.below(3) {
+                0 => f.extend_from_slice(&[0x02, rng.byte(), rng.byte(), rng.byte()]),
+                1 => {
+                    let k = rng.range(1, 3);
+                    let mut pl = vec![0x02u8; 4 - k];
+                    pl.extend(std::iter::repeat(0x1b).take(k));
+                    f.extend_from_slice(&pl);
+                }
+                _ => f.extend_from_slice(&[0x1b, *rng.pick(&[0x55u8, 0x1b]), 0x55, *rng.pick(&[0x1b, 0x00])]),
+            }
             Hist::AfterError(f, "after-InvalidEsc")
         }
         4 => {
